@@ -3,6 +3,7 @@
 From V.lib Require Import Base.
 From V.model Require Import MemPool MemPoolSpec TxFlow TxFlowSpec.
 From V.proofs Require Import MemPool_Proofs TxFlow_Base.
+From stdpp Require sorting.
 
 (* ---------------------------------------------------------------------------------------- *)
 (* sorted_keys *)
@@ -32,6 +33,40 @@ Qed.
 Lemma sorted_keys_NoDup {A} (m : gmap Z A) : NoDup (sorted_keys m).
 Proof. rewrite sorted_keys_perm. apply NoDup_fst_map_to_list. Qed.
 
+(* the sorted keys are determined by the set of keys *)
+Lemma insert_kv_sorted {A} (kv : Z * A) l :
+  Sorted.StronglySorted Z.le (map fst l) -> Sorted.StronglySorted Z.le (map fst (insert_kv kv l)).
+Proof.
+  induction l as [|x l IH]; intros H; simpl.
+  - repeat constructor.
+  - destruct (fst kv <=? fst x) eqn:E.
+    + apply Z.leb_le in E. simpl. constructor; [exact H|].
+      apply Sorted.StronglySorted_inv in H. destruct H as [_ H]. constructor; [exact E|].
+      eapply Forall_impl; [exact H|]. intros y Hy. simpl in *. lia.
+    + apply Z.leb_gt in E. simpl. apply Sorted.StronglySorted_inv in H. destruct H as [H1 H2].
+      constructor; [apply IH, H1|].
+      assert (Hp : map fst (insert_kv kv l) ≡ₚ fst kv :: map fst l).
+      { rewrite insert_kv_perm. reflexivity. }
+      rewrite Hp. constructor; [lia|exact H2].
+Qed.
+
+Lemma sort_kv_sorted {A} (l : list (Z * A)) : Sorted.StronglySorted Z.le (map fst (sort_kv l)).
+Proof.
+  induction l as [|x l IH]; [constructor|]. unfold sort_kv in *. simpl. apply insert_kv_sorted, IH.
+Qed.
+
+Lemma sort_z_keys {A} (m : gmap Z A) (l : list Z) :
+  NoDup l -> (forall x, x ∈ l <-> is_Some (m !! x)) -> sort_z l = sorted_keys m.
+Proof.
+  intros Hnd Hl. unfold sort_z, sorted_keys.
+  apply (sorting.StronglySorted_unique Z.le); [apply sort_kv_sorted|apply sort_kv_sorted|].
+  rewrite !sort_kv_perm', map_map. cbn. rewrite map_id.
+  apply NoDup_Permutation; [exact Hnd|apply NoDup_fst_map_to_list|].
+  intros x. rewrite Hl, elem_of_list_fmap. split.
+  - intros (a & Ha). exists (x, a). split; [reflexivity|]. apply elem_of_map_to_list, Ha.
+  - intros ([k a] & -> & H). apply elem_of_map_to_list in H. simpl. eauto.
+Qed.
+
 (* ---------------------------------------------------------------------------------------- *)
 (* every change of a stored state is notified: the states after a step are the states before,
    overwritten by the states of the step's notifications; at most one notification per txid *)
@@ -47,7 +82,7 @@ Definition oproof (os : option tstate) : option Z :=
 
 Definition trans (PB : Z -> Prop) (so s : tstate) : Prop :=
   (s_unsafe so = true -> s_unsafe s = true) /\ (s_cancel so = true -> s_cancel s = true) /\
-  (flags so -> flags s) /\ proof_ok PB (s_proof so) s /\ s_outs s = s_outs so.
+  (flags so -> flags s) /\ proof_ok PB (s_proof so) s /\ s_outs s = s_outs so /\ s_body s = s_body so.
 
 Record Ext (PB : Z -> Prop) (S0 S : gmap Z tstate) (evs : list event) : Prop := mkExt {
   x_nodup : NoDup (tkeys evs);
@@ -136,7 +171,7 @@ Proof. unfold same_misc. intros (?&?&?&?) (?&?&?&?). repeat split; congruence. Q
 (* ---------------------------------------------------------------------------------------- *)
 (* mark_conflicts *)
 Definition mk_unsafe_s (s : tstate) : tstate :=
-  TState false true (s_cancel s) (s_depth s) (s_proof s) (s_outs s).
+  TState false true (s_cancel s) (s_depth s) (s_proof s) (s_outs s) (s_body s).
 Definition mk_unsafe_u (u : utx) : utx := UTx (u_time u) true (u_safe u) (u_trusted u).
 
 Lemma trans_mk_unsafe PB s : trans PB s (mk_unsafe_s s).
@@ -189,7 +224,7 @@ Proof.
             + apply bool_decide_eq_false in Eb. rewrite bool_decide_eq_false_2; [reflexivity|].
               rewrite elem_of_cons. tauto. }
         split; [exact HE'|].
-        exists (EUpdate c (TState false true (s_cancel s) (s_depth s) (s_proof s) (s_outs s)) :: evs).
+        exists (EUpdate c (TState false true (s_cancel s) (s_depth s) (s_proof s) (s_outs s) (s_body s)) :: evs).
         split; [rewrite Hacc, <- app_assoc; reflexivity|]. split.
         { intros x s' H. change (?a :: evs) with ([a] ++ evs) in H. apply tev_in_app in H.
           destruct H as [H|H].
@@ -254,7 +289,7 @@ Definition dcond (n : node) (cutoff t : Z) (u : utx) : bool :=
   negb (u_safe u) && negb (u_unsafe u) && (u_time u <? cutoff)
   && (u_trusted u || is_trusted (mp n) t).
 Definition mk_safe_s (s : tstate) : tstate :=
-  TState true (s_unsafe s) (s_cancel s) (s_depth s) (s_proof s) (s_outs s).
+  TState true (s_unsafe s) (s_cancel s) (s_depth s) (s_proof s) (s_outs s) (s_body s).
 Definition mk_safe_u (u : utx) : utx := UTx (u_time u) (u_unsafe u) true (u_trusted u).
 
 Lemma trans_mk_safe PB s : (s_unsafe s || s_cancel s) = false -> trans PB s (mk_safe_s s).
@@ -455,7 +490,7 @@ Qed.
 (* ---------------------------------------------------------------------------------------- *)
 (* ProcessBlock: the cancel loop *)
 Definition mk_cancel_s (s : tstate) : tstate :=
-  TState false true true (s_depth s) (s_proof s) (s_outs s).
+  TState false true true (s_depth s) (s_proof s) (s_outs s) (s_body s).
 
 Lemma trans_mk_cancel PB s : trans PB s (mk_cancel_s s).
 Proof. unfold trans, flags, proof_ok, mk_cancel_s. simpl. repeat split; auto. Qed.
@@ -495,7 +530,7 @@ Proof.
     destruct (mem c unc) eqn:Emu.
     + apply mem_elem in Emu. destruct (Hpre c) as [Hfr (s & Hs)]; [left|exact Ect|exact Emu|].
       rewrite Hs.
-      set (n1 := set_states n (<[c:=TState false true true (s_depth s) (s_proof s) (s_outs s)]> (states n))).
+      set (n1 := set_states n (<[c:=TState false true true (s_depth s) (s_proof s) (s_outs s) (s_body s)]> (states n))).
       destruct (IH n1 false (acc ++ [EUpdate c (mk_cancel_s s)])) as
         (n' & safe' & evs & Hr & Hmp & Hun & Hmisc & HE' & Hst & Hst' & Hev1 & Hev2).
       { intros c' Hin Hne Hu. destruct (Hpre' c' Hin Hne Hu) as [H1 H2].
@@ -557,7 +592,8 @@ Lemma block_notify_spec (PB : Z -> Prop) S0 b : PB b -> forall pending, NoDup (m
     (forall x s, tev_in evs x s ->
        exists body nw sf, (x, body, nw, sf) ∈ pending /\ s_proof s = Some b /\ s_depth s = 0 /\
          (if nw : bool then ETx x s ∈ evs /\ outs_ok body (s_outs s) = true /\
-                            s_unsafe s = negb (s_safe s) /\ s_cancel s = false
+                            s_unsafe s = negb (s_safe s) /\ s_cancel s = false /\ s_body s = body /\
+                            (forall so, states n !! x = Some so -> (s_unsafe so || s_cancel so) = true -> s_safe s = false)
           else EUpdate x s ∈ evs)) /\
     (forall t body nw sf, (t, body, nw, sf) ∈ pending ->
        exists s, s_proof s = Some b /\ s_depth s = 0 /\
@@ -576,29 +612,36 @@ Proof.
     (* the state written and the event emitted for t *)
     assert (Step : exists s1 e, tev e = Some (nw, t, s1) /\ s_proof s1 = Some b /\ s_depth s1 = 0 /\
               (if nw then e = ETx t s1 /\ outs_ok body (s_outs s1) = true /\
-                          s_unsafe s1 = negb (s_safe s1) /\ s_cancel s1 = false else e = EUpdate t s1) /\
+                          s_unsafe s1 = negb (s_safe s1) /\ s_cancel s1 = false /\ s_body s1 = body /\
+                          (forall so, states n !! t = Some so -> (s_unsafe so || s_cancel so) = true -> s_safe s1 = false)
+               else e = EUpdate t s1) /\
               Ext PB S0 (<[t:=s1]> (states n)) (acc ++ [e]) /\
               block_notify n b ((t, body, nw, sf) :: pending) acc =
               block_notify (set_states n (<[t:=s1]> (states n))) b pending (acc ++ [e])).
     { destruct nw.
-      - exists (TState sf (negb sf) false 0 (Some b) (spent_outputs n body)).
-        exists (ETx t (TState sf (negb sf) false 0 (Some b) (spent_outputs n body))).
+      - set (sf' := sf && negb (match states n !! t with Some so => s_unsafe so || s_cancel so | None => false end)).
+        exists (TState sf' (negb sf') false 0 (Some b) (spent_outputs n body) body).
+        exists (ETx t (TState sf' (negb sf') false 0 (Some b) (spent_outputs n body) body)).
         split; [reflexivity|]. split; [reflexivity|]. split; [reflexivity|].
-        split; [split; [reflexivity|split; [apply outs_ok_spent|split; reflexivity]]|]. split; [|reflexivity].
+        split.
+        { split; [reflexivity|]. split; [apply outs_ok_spent|]. split; [reflexivity|]. split; [reflexivity|].
+          split; [reflexivity|]. intros so Hso Hf. cbn [s_safe]. subst sf'. rewrite Hso, Hf. apply andb_false_r. }
+        split; [|reflexivity].
         apply Ext_new; [exact HE|exact Hfr|].
         right. exists b. split; [reflexivity|exact HPB].
       - destruct Hst as (s & Hs).
-        exists (TState (negb (s_unsafe s) && sf) (negb (negb (s_unsafe s) && sf)) (s_cancel s) 0 (Some b) (s_outs s)).
-        exists (EUpdate t (TState (negb (s_unsafe s) && sf) (negb (negb (s_unsafe s) && sf)) (s_cancel s) 0 (Some b) (s_outs s))).
+        exists (TState (negb (s_unsafe s) && sf) (negb (negb (s_unsafe s) && sf)) (s_cancel s) 0 (Some b) (s_outs s) (s_body s)).
+        exists (EUpdate t (TState (negb (s_unsafe s) && sf) (negb (negb (s_unsafe s) && sf)) (s_cancel s) 0 (Some b) (s_outs s) (s_body s))).
         split; [reflexivity|]. split; [reflexivity|]. split; [reflexivity|].
         split; [reflexivity|]. split; [|cbn [block_notify]; rewrite Hs; reflexivity].
         apply (Ext_upd PB S0 _ acc t s); [exact HE|exact Hfr|exact Hs|].
-        unfold trans, flags, proof_ok. simpl. split; [|split; [|split; [|split]]].
+        unfold trans, flags, proof_ok. simpl. split; [|split; [|split; [|split; [|split]]]].
         + intros ->. reflexivity.
         + auto.
         + intros [F1 F2]. split; [destruct (negb (s_unsafe s) && sf); reflexivity|].
           intros Hc. rewrite (F2 Hc). reflexivity.
         + right. exists b. split; [reflexivity|exact HPB].
+        + reflexivity.
         + reflexivity. }
     destruct Step as (s1 & e & Hte & Hp1 & Hd1 & Hkind & HE1 & Heq).
     destruct (IH Hnd (set_states n (<[t:=s1]> (states n))) (acc ++ [e])) as
@@ -623,7 +666,10 @@ Proof.
         -- subst e. left.
       * destruct (Hev1 x s H) as (body' & nw' & sf' & Hin & H1 & H2 & H3).
         exists body', nw', sf'. split; [right; exact Hin|]. split; [exact H1|]. split; [exact H2|].
-        destruct nw'; [destruct H3 as [H3 H3']; split; [right; exact H3|exact H3'] | right; exact H3].
+        destruct nw'; [|right; exact H3].
+        destruct H3 as (K1 & K2 & K3 & K4 & K5 & K6). split; [right; exact K1|]. repeat (split; [assumption|]).
+        intros so Hso. apply K6. cbn [states set_states]. rewrite lookup_insert_ne; [exact Hso|].
+        intros <-. eapply Hother; eauto.
     + intros t' body' nw' sf' Hin. apply elem_of_cons in Hin. destruct Hin as [Heq'|Hin].
       * inversion Heq'. subst t' body' nw' sf'. exists s1. split; [exact Hp1|]. split; [exact Hd1|].
         destruct nw; [destruct Hkind as [-> _]|subst e]; left.
